@@ -147,9 +147,9 @@ Section WithBz.
     apply Mok_bind; [apply Mok_receive|intros pk].
     intro n. apply (challenge_loop_ok (S (length (n_udp n))) e protocol kind Hk pk n). lia.
   Qed.
-  Lemma Mok_request : forall retries e protocol kind, retries < usize_max -> valve_kind kind ->
+  Lemma Mok_request : forall retries e protocol kind, valve_kind kind ->
     Mokv (get_request_data bz port retries e protocol kind).
-  Proof. intros. unfold get_request_data. apply Mok_retry; [assumption|apply Mok_request_impl; assumption]. Qed.
+  Proof. intros. unfold get_request_data. apply Mok_retry. apply Mok_request_impl; assumption. Qed.
 
   (* ---- parsers ---- *)
   Lemma Rsafe_cstr : Rsafe read_cstr.
@@ -206,23 +206,23 @@ Section WithBz.
   Lemma Rsafe_parse_rules : forall k acc, Rsafe (parse_rules k acc).
   Proof. induction k as [|k IH]; intro acc; cbn [parse_rules]; [apply Rsafe_ret|]. rs. apply IH. Qed.
 
-  Lemma Mok_get_server_info : forall retries e, retries < usize_max -> Mokv (get_server_info bz port retries e).
+  Lemma Mok_get_server_info : forall retries e, Mokv (get_server_info bz port retries e).
   Proof.
-    intros retries e Hr. unfold get_server_info.
-    apply Mok_bind; [apply Mok_request; [exact Hr|left; reflexivity]|intro data].
+    intros retries e. unfold get_server_info.
+    apply Mok_bind; [apply Mok_request; left; reflexivity|intro data].
     destruct e as [ids|[|]]; apply Mok_lift, Rsafe_run; first [apply Rsafe_source_info|apply Rsafe_goldsrc_info].
   Qed.
-  Lemma Mok_get_server_players : forall retries e protocol, retries < usize_max -> Mokv (get_server_players bz port retries e protocol).
+  Lemma Mok_get_server_players : forall retries e protocol, Mokv (get_server_players bz port retries e protocol).
   Proof.
-    intros retries e protocol Hr. unfold get_server_players.
-    apply Mok_bind; [apply Mok_request; [exact Hr|right; left; reflexivity]|intro data].
+    intros retries e protocol. unfold get_server_players.
+    apply Mok_bind; [apply Mok_request; right; left; reflexivity|intro data].
     apply Mok_lift, Rsafe_run. apply Rsafe_bind; [apply Rsafe_read_u8|intro count].
     apply Rsafe_bind; [apply Rsafe_parse_players|intro ps]. apply Rsafe_if; [apply Rsafe_ship_block|apply Rsafe_ret].
   Qed.
-  Lemma Mok_get_server_rules : forall retries e protocol, retries < usize_max -> Mokv (get_server_rules bz port retries e protocol).
+  Lemma Mok_get_server_rules : forall retries e protocol, Mokv (get_server_rules bz port retries e protocol).
   Proof.
-    intros retries e protocol Hr. unfold get_server_rules.
-    apply Mok_bind; [apply Mok_request; [exact Hr|right; right; reflexivity]|intro data].
+    intros retries e protocol. unfold get_server_rules.
+    apply Mok_bind; [apply Mok_request; right; right; reflexivity|intro data].
     apply Mok_bind; [|intro; apply Mok_ret].
     apply Mok_lift, Rsafe_run. unfold read_u16. apply Rsafe_bind; [apply Rsafe_read_uint|intro count]. apply Rsafe_parse_rules.
   Qed.
@@ -231,10 +231,10 @@ Section WithBz.
   Proof.
     intros e g t Hs Hr. unfold Valve.query, retries_ok in *.
     apply Mok_bind; [apply Mok_udp_new; [exact Hs|exact I|intros; exact I]|intros _].
-    apply Mok_bind; [apply Mok_get_server_info; exact Hr|intro info].
+    apply Mok_bind; [apply Mok_get_server_info|intro info].
     apply Mok_if; [apply Mok_fail|].
-    apply Mok_bind; [apply Mok_gather, Mok_get_server_players; exact Hr|intro players].
-    apply Mok_bind; [apply Mok_gather, Mok_get_server_rules; exact Hr|intro rules]. apply Mok_ret.
+    apply Mok_bind; [apply Mok_gather, Mok_get_server_players|intro players].
+    apply Mok_bind; [apply Mok_gather, Mok_get_server_rules|intro rules]. apply Mok_ret.
   Qed.
 End WithBz.
 
